@@ -9,6 +9,8 @@
 // errors.Is and errors.As — in every render mode (plain, debug levels, RenderTo, Template.Render),
 // for both callback result flavours (nil, err) and (value, err), and for every loader arrangement.
 // Name faults replace one reached filter/function/test/macro/template name by an unknown one.
+// That includes names a from-import / import statement resolves although nothing calls them afterwards
+// (positions of group "unused").
 // The documented tolerances (undefined variable/attribute, `ignore missing`) are checked against the
 // twin program in which the tolerated statement is deleted.
 // Templates in sub-directories that refer to each other by ./ and ../ names are served by the harness
@@ -67,6 +69,9 @@ type position struct {
 
 // macro parameter list that re-binds every context variable an expression form may use
 const mp = "x, xs, m, s"
+
+// a library with three macros for the positions of group "unused" (names that are imported but never called)
+const unusedLib = "{% macro mm(a) %}[{{ a }}]{% endmacro %}{% macro nn(a) %}({{ a }}){% endmacro %}{% macro kk(a) %}<{{ a }}>{% endmacro %}"
 
 var positions = []position{
 	{name: "print", group: "top", hole: 'E', tpls: map[string]string{"top": "a{{ <E> }}b"}},
@@ -257,6 +262,91 @@ var positions = []position{
 	{name: "macrodefaultimport", group: "macro", hole: 0, tpls: map[string]string{
 		"lib": "{% macro mm(a, b = @g(2)) %}[{{ a }}{{ b }}]{% endmacro %}",
 		"top": "{% import '#lib#' as l %}{{ l.$mm$(1) }}{% for i in [1, 2] %}{{ l.$mm$(i) }}{% endfor %}"}},
+	// names that are RESOLVED by a statement on the rendered path but never USED afterwards: `from … import n`
+	// binds n when the statement is executed — a name the library does not define cannot be resolved there,
+	// whether or not n is called later (C17-G); likewise `import` / `from` of a template whose macros are never
+	// called. The $…$ sites are the imported names; calls that stand in an untaken branch are written without a
+	// marker (they are never reached and therefore never renamed).
+	{name: "fromunused", group: "unused", hole: 0, tpls: map[string]string{
+		"lib": unusedLib, "top": "a{% from '#lib#' import $nn$ %}b"}},
+	{name: "fromunusedall", group: "unused", hole: 0, tpls: map[string]string{
+		"lib": unusedLib, "top": "{% from '#lib#' import $mm$, $nn$, $kk$ %}d"}},
+	{name: "fromunusedbeside", group: "unused", hole: 0, tpls: map[string]string{
+		"lib": unusedLib, "top": "{% from '#lib#' import $mm$, $nn$, $kk$ %}{{ nn(x) }}"}},
+	{name: "fromunusedmid", group: "unused", hole: 0, tpls: map[string]string{
+		"lib": unusedLib, "top": "{% from '#lib#' import mm, $nn$, kk %}{{ mm(x) }}{{ kk(x|@f) }}"}},
+	{name: "fromunusedalias", group: "unused", hole: 0, tpls: map[string]string{
+		"lib": unusedLib, "top": "{% from '#lib#' import mm as p, $nn$ as q %}{{ p(x) }}"}},
+	{name: "fromunusedaliasfirst", group: "unused", hole: 0, tpls: map[string]string{
+		"lib": unusedLib, "top": "{% from '#lib#' import $nn$ as q, mm %}{{ mm(x) }}"}},
+	{name: "fromunusedaliasmix", group: "unused", hole: 0, tpls: map[string]string{
+		"lib": unusedLib, "top": "{% from '#lib#' import $mm$ as p, $nn$, $kk$ as r %}{{ nn(x) }}"}},
+	{name: "fromunusedaliasswap", group: "unused", hole: 0, tpls: map[string]string{ // the alias is the name of a macro that exists
+		"lib": unusedLib, "top": "{% from '#lib#' import $nn$ as mm %}d"}},
+	{name: "fromunusedbranch", group: "unused", hole: 0, tpls: map[string]string{
+		"lib": unusedLib, "top": "{% from '#lib#' import $nn$ %}{% if @g(0) %}{{ nn(x) }}{% endif %}d"}},
+	{name: "fromunusedelse", group: "unused", hole: 0, tpls: map[string]string{
+		"lib": unusedLib, "top": "{% from '#lib#' import mm, $nn$ %}{% if x is @t %}{{ mm(x) }}{% else %}{{ nn(x) }}{% endif %}"}},
+	{name: "fromunusedtern", group: "unused", hole: 0, tpls: map[string]string{
+		"lib": unusedLib, "top": "{% from '#lib#' import $nn$, mm %}{{ @g(1) ? mm(x) : nn(x) }}"}},
+	{name: "fromunusedshort", group: "unused", hole: 0, tpls: map[string]string{
+		"lib": unusedLib, "top": "{% from '#lib#' import $nn$ %}{% if @g(0) and nn(x) %}y{% else %}n{% endif %}"}},
+	{name: "fromunusedemptyloop", group: "unused", hole: 0, tpls: map[string]string{
+		"lib": unusedLib, "top": "{% from '#lib#' import $nn$ %}{% for i in [] %}{{ nn(i) }}{% else %}e{% endfor %}"}},
+	{name: "fromunusedloop", group: "unused", hole: 0, tpls: map[string]string{
+		"lib": unusedLib, "top": "{% for i in xs %}{% from '#lib#' import $nn$ %}{{ i }}{% endfor %}"}},
+	{name: "fromunusedif", group: "unused", hole: 0, tpls: map[string]string{
+		"lib": unusedLib, "top": "{% if x is @t %}{% from '#lib#' import mm, $nn$ %}{{ mm(x) }}{% endif %}"}},
+	{name: "fromunusedinclude", group: "unused", hole: 0, tpls: map[string]string{
+		"lib": unusedLib, "part": "{% from '#lib#' import mm, $nn$ %}{{ mm(x) }}", "top": "h{% include '#part#' %}t"}},
+	{name: "fromunusedbase", group: "unused", hole: 0, top: "child", tpls: map[string]string{
+		"lib":   unusedLib,
+		"base":  "<{% block b %}{% from '#lib#' import $nn$ %}B{% endblock %}>",
+		"child": "{% extends '#base#' %}{% block o %}x{% endblock %}"}},
+	{name: "fromunusedbaseoutside", group: "unused", hole: 0, top: "child", tpls: map[string]string{
+		"lib":   unusedLib,
+		"base":  "<{% from '#lib#' import mm, $nn$ %}{% block b %}B{% endblock %}{{ mm(x) }}>",
+		"child": "{% extends '#base#' %}{% block b %}C{% endblock %}"}},
+	{name: "fromunusedchild", group: "unused", hole: 0, top: "child", tpls: map[string]string{
+		"lib":   unusedLib,
+		"base":  "<{% block b %}B{% endblock %}>",
+		"child": "{% extends '#base#' %}{% block b %}{% from '#lib#' import $nn$ as q, mm %}C{{ mm(x) }}{% endblock %}"}},
+	{name: "fromunusedparent", group: "unused", hole: 0, top: "child", tpls: map[string]string{
+		"lib":   unusedLib,
+		"base":  "<{% block b %}{% from '#lib#' import $nn$ %}B{% endblock %}>",
+		"child": "{% extends '#base#' %}{% block b %}C{{ parent() }}{% endblock %}"}},
+	{name: "fromunusedmacro", group: "unused", hole: 0, tpls: map[string]string{
+		"lib": unusedLib, "top": "{% macro outer() %}{% from '#lib#' import $nn$, mm %}o{{ mm(1) }}{% endmacro %}{{ $outer$() }}"}},
+	{name: "fromunusedlib", group: "unused", hole: 0, tpls: map[string]string{
+		"lib":   unusedLib,
+		"outer": "{% from '#lib#' import $nn$ %}{% macro oo(a) %}{{ a }}{% endmacro %}",
+		"top":   "{% import '#outer#' as l %}{{ l.$oo$(x) }}"}},
+	{name: "fromunusedtwice", group: "unused", hole: 0, tpls: map[string]string{
+		"lib": unusedLib, "top": "{% from '#lib#' import mm %}{% from '#lib#' import $nn$ %}{{ mm(x) }}"}},
+	{name: "fromunusedafterimport", group: "unused", hole: 0, tpls: map[string]string{
+		"lib": unusedLib, "top": "{% import '#lib#' as l %}{% from '#lib#' import $kk$ as r %}{{ l.$mm$(x) }}"}},
+	{name: "fromunusedapply", group: "unused", hole: 0, tpls: map[string]string{
+		"lib": unusedLib, "top": "{% apply upper %}a{% from '#lib#' import $nn$ %}b{% endapply %}"}},
+	{name: "fromunusedapi", group: "unused", hole: 0, tpls: map[string]string{
+		"apilib": "API-MACRO|mm|a|[{{ a|@f }}]",
+		"top":    "{% from '#apilib#' import $mm$ as q %}d"}},
+	{name: "importunused", group: "unused", hole: 0, tpls: map[string]string{
+		"lib": unusedLib, "top": "a{% import '#lib#' as l %}b"}},
+	{name: "importunusedbranch", group: "unused", hole: 0, tpls: map[string]string{
+		"lib": unusedLib, "top": "{% import '#lib#' as l %}{% if @g(0) %}{{ l.mm(x) }}{% endif %}d"}},
+	{name: "importunusedinclude", group: "unused", hole: 0, tpls: map[string]string{
+		"lib": unusedLib, "part": "{% import '#lib#' as l %}p", "top": "h{% include '#part#' %}t"}},
+	{name: "importunusedbase", group: "unused", hole: 0, top: "child", tpls: map[string]string{
+		"lib":   unusedLib,
+		"base":  "<{% block b %}{% import '#lib#' as l %}B{% endblock %}>",
+		"child": "{% extends '#base#' %}{% block o %}x{% endblock %}"}},
+	{name: "importunusedlib", group: "unused", hole: 0, tpls: map[string]string{
+		"lib":   unusedLib,
+		"outer": "{% import '#lib#' as k %}{% macro oo(a) %}{{ a }}{% endmacro %}",
+		"top":   "{% from '#outer#' import $oo$ %}{{ oo(x) }}"}},
+	{name: "importunusedtwo", group: "unused", hole: 0, tpls: map[string]string{
+		"lib": unusedLib, "lib2": "{% macro zz(a) %}{{ a }}{% endmacro %}",
+		"top": "{% import '#lib#' as l %}{% import '#lib2#' as k %}{{ l.$mm$(x) }}"}},
 	// documented tolerances
 	{name: "tolundefvar", group: "tolerance", hole: 'E', tpls: map[string]string{"top": "a«{{ undefinedvar }}»{{ <E> }}b"}},
 	{name: "tolundefattr", group: "tolerance", hole: 'E', tpls: map[string]string{"top": "a«{{ m.nope }}{{ x.nope }}{{ undefinedvar.a.b }}»{{ <E> }}b"}},
@@ -388,6 +478,15 @@ var relPositions = []position{
 		"pages/part": "{% from '#../lib/m=lib/m#' import $mm$ %}{{ mm(x) }}",
 		"lib/m":      relMacro},
 		decoys: map[string]string{"./part": "ROOT", "../lib/m": decoyMacro}},
+	// imported through a relative name, never called (see group "unused")
+	{name: "relfromunused", top: "pages/main", tpls: map[string]string{
+		"lib/m":      relMacro + "{% macro nn(a) %}({{ a }}){% endmacro %}",
+		"pages/main": "{% from '#../lib/m=lib/m#' import $mm$, $nn$ as q %}{{ mm(x) }}"},
+		decoys: map[string]string{"../lib/m": decoyMacro + "{% macro nn(a) %}ROOT{% endmacro %}"}},
+	{name: "relimportunused", top: "pages/main", tpls: map[string]string{
+		"pages/m":    relMacro,
+		"pages/main": "a{% import '#./m=pages/m#' as l %}b"},
+		decoys: map[string]string{"./m": decoyMacro}},
 }
 
 func init() {
@@ -1064,7 +1163,7 @@ func open(pr *program, src map[string]string, mode, variant string, pl *plan, op
 		// a real FileSystemLoader on a temporary directory: template `n` is the file <root>/n.twig
 		// (a template under a written name such as "../lib/m" lands beside the root, where joining
 		// the written name to the root puts it); the source fsDir makes a directory of that name
-		tmp, err := os.MkdirTemp("", "c17fs")
+		tmp, err := os.MkdirTemp(vlib.Scratch(), "c17fs") // "" (replay mode): the default temporary directory
 		if err != nil {
 			panic(err)
 		}
@@ -1531,11 +1630,14 @@ func main() {
 			"Expression forms include a filter applied to a base that itself contains another filter outside the chain (call argument, list, hash, parenthesised operand, " +
 			"ternary arm, filter argument, item access; one and two deep), every filter failing / unknown in turn; the call sites of these branch-free forms count as reached " +
 			"whenever one of them is invoked (an engine that skips one of them still has to report an unknown name there). " +
+			"Positions of group `unused`: a from-import / import statement on the rendered path whose names are never called afterwards (alone, beside used names, " +
+			"aliased, called only in unreached code, inside loops / includes / blocks / parents / macro bodies / library top-level code): the imported macro name / the " +
+			"library template is replaced by an unresolvable one and the render must fail although nothing uses the name. " +
 			"Non-trivial = the armed invocation really happened (or the renamed site is reached in the fault-free run)",
 		Assumptions: []string{
 			"positions and expression forms outside the listed corpus are not explored; at most two failures per render",
 			"a loader that fails while a LATER loader has the template is not generated (whether the later loader may serve it is not determined by the statement)",
-			"a name that is never reached (dead branch, short-circuited operand) is not renamed: whether it must be resolved is not determined by the statement",
+			"a name that is never reached (dead branch, short-circuited operand, a from-import that is itself not executed) is not renamed: whether it must be resolved is not determined by the statement; a from-import that IS executed resolves its names there, called or not",
 			"for RenderTo only the returned error is checked (partial output may already have been written to the caller's writer)",
 			"sandboxed includes and security-policy violations are outside this property",
 			"repeated renders: renders made while a switched fault is OFF are not judged (recovery is not part of the statement); a loader whose content changes while the cache is on without auto-reload is not generated",
